@@ -25,7 +25,7 @@ class DocAttrStep(Step):
         return StepMap.empty
 
     def invert(self, doc: Node) -> Step:
-        return DocAttrStep(self.attr, doc.attrs[self.attr])
+        return DocAttrStep(self.attr, doc.attrs.get(self.attr))
 
     def map(self, mapping: Mappable) -> Step | None:
         return self
